@@ -302,6 +302,19 @@ type c10Obj struct {
 	cursor int
 	exN    int
 	keep   func(c10Kept)
+	// scribble: the caller owns what it was given - in these histories every returned byte slice is overwritten
+	// with '*' right after it was rendered (instead of being kept for monitor (a)); later results must not change
+	scribble bool
+	pending  [][]byte
+}
+
+func (o *c10Obj) flushScribble() {
+	for _, b := range o.pending {
+		for i := range b {
+			b[i] = '*'
+		}
+	}
+	o.pending = nil
 }
 
 func (o *c10Obj) keepErr(from string, err error) {
@@ -313,6 +326,10 @@ func (o *c10Obj) keepErr(from string, err error) {
 
 func (o *c10Obj) keepBytes(what, from string, b []byte) {
 	if b == nil || o.keep == nil {
+		return
+	}
+	if o.scribble {
+		o.pending = append(o.pending, b)
 		return
 	}
 	o.keep(c10Kept{what: what, label: o.in.label, from: from, b: b, bsnap: bytes.Clone(b)})
@@ -951,6 +968,7 @@ func (st *c10State) run(h *c10History) bool {
 				in = h.Inputs[op.New-1]
 				key, name = "create", in.opName("create")
 				o, s := c10Create(in, keep)
+				o.scribble = !h.Poison
 				live[op.Slot] = o
 				return s
 			}
@@ -960,6 +978,7 @@ func (st *c10State) run(h *c10History) bool {
 			key = op.Step
 			var s string
 			key, s = o.run(op.Step)
+			o.flushScribble()
 			return s
 		})
 		st.ops++
@@ -1726,7 +1745,7 @@ func init() {
 		Rule: "histories of library calls over several live objects (schema projects = root + types + enum rules, bare roots with late AddRule/AddType scripts, enum rules, regex schemas, JSON documents) under four monitors: " +
 			"(a) every returned value (Example/OpenAPI/Dereference bytes, AST trees, UsedUserTypes and enum Values lists, errors) and the text every schema and type object was created from is kept with a deep snapshot taken at return time and ALL kept values are re-compared after EVERY later operation; " +
 			"(b) every result inside a history is compared with the result of the same call on the same input in a fresh process that does nothing else first (one child process per input; inputs without such a baseline are compared with their first-sight result computed before any history; the counters say how many of each); " +
-			"(c) hook H2 asserts that every loader taken from the pool is in reset state; (d) hook H1 overwrites a buffer with 0xDB when it is put back (3 of 4 histories), a result showing 0xDB 0xDB is a use-after-put. " +
+			"(a') in the histories without buffer poisoning (1 of 4) every returned byte slice is instead overwritten by the harness right after it was rendered - the caller owns it - and no later result may change because of that; (c) hook H2 asserts that every loader taken from the pool is in reset state; (d) hook H1 overwrites a buffer with 0xDB when it is put back (3 of 4 histories), a result showing 0xDB 0xDB is a use-after-put. " +
 			"A result that differs from its baseline is triaged before it is reported: if only the heap-address name of an unnamed type (#0x…) differs it is reported under one fixed key; if recomputing the input up to 150 times on fresh objects (and in 2 more fresh processes) gives more than one answer the input is nondeterministic by itself (clause nondeterministic, keyed by what differs, and the input is no longer compared); otherwise clause history-dependent (panic if the history result is a panic the baseline does not have). " +
 			"The pools are emptied (two collections) before every 8th history and nothing is collected in between, GOMAXPROCS=1, so that sync.Pool reuse is certain and a history also meets what up to 7 earlier histories left in the pools; the hook counters report the reuse seen, and a shard that saw none claims no case. " +
 			"Inputs: fixed accepted schemas of nesting depth 0..10, scanner-rejected texts, texts failing half-way inside the loader (rule errors in // and /* */ annotations, duplicate keys, bad enum, unknown rule, annotation on a two-element line), enum/regex/document texts, every literal of the repository's tests (as schema; as enum, regex, document where it looks like one), generated nested schemas with one defect, generated 1-3 type projects, generated call scripts. " +
